@@ -5,7 +5,7 @@ import numpy.ma as ma
 from .. import posecase as pc
 from ..mtexec import f64_bits, bits_f64
 
-RULE = ("NumPy bodies with 2–9 frames, 1–2 people, 1–4 points, 2-D; per-point observation patterns {never, once at start / middle / end, prefix, suffix, gaps, two, three, four, all}; target rates {same, ×2, ÷2, ×1.5, ×0.7, ×3}; "
+RULE = ("a systematic sweep of single tracks (every frame count 3–9 × every index of the first / last observation, same and doubled rate), then NumPy bodies with 2–9 frames, 1–2 people, 1–4 points, 2-D; per-point observation patterns {never, once at start / middle / end, prefix, suffix, gaps, two, three, four, all}; target rates {same, ×2, ÷2, ×1.5, ×0.7, ×3}; "
         "kinds {linear, quadratic, cubic}; trajectories: random dyadic and affine in time; checked on the implementation: frame count and rate, end-point alignment, identity at the same rate, affine exactness (1e-4), "
         "support between a track's first and last observation only, linear within the neighbouring observations; linear kind compared value by value (1e-9) with the Lean model; non-trivial = distinct (body, rate, kind)")
 ASSUMPTIONS = ["scipy.interpolate.interp1d: linear kind modelled by its formula; the spline construction of the quadratic / cubic kinds is not modelled (implementation-only checks, tolerance 1e-4)",
@@ -51,14 +51,26 @@ def run(ctx):
     from pose_format.numpy import NumPyPoseBody
     rng = ctx.rng
     reqs, meta = [], []
+    # a systematic sweep first: every (frame count, index of the first / last observation) of a single track at the same and at the doubled rate — the grid points
+    # i / (F − 1) are where index arithmetic and float rounding meet
+    sweep = [(F, k, side) for F in range(3, 10) for k in range(1, F - 1) for side in ("from", "until")]
     for it in range(ctx.pick(150, 2000)):
         affine = rng.random() < 0.5
         data, conf, pats = gen(rng, affine)
-        F, P, N, D = data.shape
         fps = rng.choice([10.0, 24.0, 25.0, 30.0])
         ratio = rng.choice([1.0, 2.0, 0.5, 1.5, 0.7, 3.0])
-        new_fps = fps * ratio
         kind = rng.choice(["linear", "linear", "quadratic", "cubic"])
+        if it < len(sweep):
+            F, k, side = sweep[it]
+            data = np.zeros((F, 1, 1, 2), dtype=np.float32); conf = np.zeros((F, 1, 1), dtype=np.float32)
+            obs = range(k, F) if side == "from" else range(0, k + 1)
+            for f in range(F):
+                data[f, 0, 0] = [0.5 * f + 1.0, -0.25 * f] if f in obs else [99.0, 0.0]
+                conf[f, 0, 0] = 1.0 if f in obs else 0.0
+            pats, affine = {(0, 0): "sweep_%s" % side}, True
+            ratio, kind = (1.0 if it % 2 == 0 else 2.0), "linear"
+        F, P, N, D = data.shape
+        new_fps = fps * ratio
         body = NumPyPoseBody(fps, data.copy(), conf.copy())
         info = {"frames": F, "people": P, "points": N, "fps": fps, "new_fps": new_fps, "kind": kind, "affine": affine, "patterns": {"%d,%d" % k: v for k, v in pats.items()},
                 "data": data.tolist(), "conf": conf.tolist()}
